@@ -808,7 +808,51 @@ func (g *gen) episode() []Event {
 		}
 		return s
 	}
-	switch r.Intn(4) {
+	switch r.Intn(7) {
+	case 4:
+		// three TransportServers of different age on one listener (the controller walks them in map order)
+		gc := Spec{Kind: "gc", Listeners: []k8s.VListener{{Name: "l3", Port: 9000, Proto: "TCP"}, {Name: "dns-udp", Port: 5353, Proto: "UDP"}}}
+		g.gcLive, g.gcSpec = true, gc
+		out = append(out, Event{Op: "upsert", Spec: gc, Note: "episode-gc"})
+		ages := []int64{1000, 2000, 3000}
+		for i := len(ages) - 1; i > 0; i-- {
+			j := r.Intn(i + 1)
+			ages[i], ages[j] = ages[j], ages[i]
+		}
+		for i, nn := range [][2]string{{"ns1", "a"}, {"a-b", "b"}, {"ns1", "c"}} {
+			t := mk("ts", nn[0], nn[1], ages[i])
+			t.LName, t.Proto = "l3", "TCP"
+			up(t, "episode-ts-same-listener")
+		}
+		// touch one of them a few times: every event rebuilds the listener hosts
+		for i := 0; i < 2+r.Intn(3); i++ {
+			t := g.live["ts|ns1/c"]
+			t.Gen++
+			t.Host = ""
+			up(t, "episode-ts-touch")
+		}
+	case 5, 6:
+		// a route is attached, edited, orphaned and attached again: its status must follow
+		h := vh.Pick(r, hosts[:3])
+		v := mk("vs", "ns1", "a", stamps[0])
+		v.Host, v.Routes = h, [][2]string{{"/a", "b"}}
+		up(v, "episode-vs")
+		rt := mk("vsr", "ns1", "b", stamps[1])
+		rt.Host, rt.Subpaths = h, []string{"/a/x"}
+		rt = up(rt, "episode-vsr")
+		rt.Gen++
+		rt.Subpaths = []string{"/a/y"}
+		rt = up(rt, "episode-vsr-edit")
+		del(v)
+		v2 := mk("vs", "ns1", "a", stamps[0])
+		v2.Host, v2.Routes = h, [][2]string{{"/a", "b"}}
+		up(v2, "episode-vs-again")
+		if r.Bool() {
+			rt.Gen++
+			rt.Subpaths = []string{"/a/z"}
+			up(rt, "episode-vsr-edit")
+			del(v2)
+		}
 	case 0, 1:
 		// winner and loser of one host; the loser goes away and comes back
 		h := vh.Pick(r, hosts)
